@@ -1,9 +1,18 @@
 package src
 
 import (
+	"bytes"
 	"context"
+	"encoding/json"
 	h1 "example.com/m/ext/http"
+	"fmt"
 	"io"
+	"math/big"
+	"net/mail"
+	"net/url"
+	"os"
+	"regexp"
+	"strings"
 )
 
 // Hand-picked shapes that exercise every branch of the two built-in templates (corpus, run first).
@@ -74,6 +83,47 @@ type ShapesLongNamed interface {
 	Late(x1, x2, x3, x4, x5, x6, x7 int, io string, w io.Writer, context int, ctx context.Context) (err error, n int)
 	Early(io int, context string, http bool, p1, p2, p3, p4, p5, p6 int, r io.Reader, c context.Context, k h1.Key) (h1.Client, error)
 	Types(Local int, Key string, q1, q2, q3, q4, q5, q6, q7 int, l Local, k Key) (Key, Local)
+}
+
+// anonymous interface literals that embed an interface AND declare own methods; the packages of the own methods' types
+// (math/big, net/url, regexp, os, bytes, encoding/json, net/mail, strings) are mentioned nowhere else in this file, so they are
+// imported only if the import walk visits every EXPLICIT method of the literal (not the first k of the completed method set)
+type ShapesAnonIface interface {
+	// embedded method sorts BEFORE the own one (String < Use, Handle < Zed, Read < String < Zap)
+	Param(v interface {
+		fmt.Stringer
+		Use(n *big.Int)
+	}) error
+	Result() interface {
+		h1.Handler
+		Zed(u *url.URL)
+	}
+	Field(s struct {
+		F interface {
+			io.Reader
+			fmt.Stringer
+			Zap(r *regexp.Regexp)
+		}
+	}) int
+	// own method with types of several packages
+	Several(v interface {
+		fmt.Stringer
+		Two(f *os.File, b *bytes.Buffer) json.RawMessage
+	})
+	// mirrored: the embedded method sorts AFTER the own one (Apply < String)
+	After(v []interface {
+		Apply(a mail.Address)
+		fmt.Stringer
+	}) bool
+}
+
+// the same shape as an inline type-parameter constraint
+type ShapesAnonConstraint[T interface {
+	fmt.Stringer
+	Via(b *strings.Builder)
+}] interface {
+	Get() T
+	Put(t T) error
 }
 
 type ShapesEmpty interface{}
